@@ -15,63 +15,33 @@ use crate::types::{Command, CommandLine, CommandResult, Redirection};
 ///      ("1", ">", "foo.txt"),
 ///  ])
 fn _get_std_fds(redirects: &[Redirection]) -> (Option<RawFd>, Option<RawFd>) {
-    if redirects.is_empty() {
-        return (None, None);
-    }
-
     let mut fd_out = None;
     let mut fd_err = None;
 
-    for i in 0..redirects.len() {
-        let item = &redirects[i];
-        if item.0 == "1" {
-            // 1>&2
-            let mut _fd_candidate = None;
-
-            if item.2 == "&2" {
-                let (_fd_out, _fd_err) = _get_std_fds(&redirects[i+1..]);
-                if let Some(fd) = _fd_err {
-                    _fd_candidate = Some(fd);
-                } else {
-                    _fd_candidate = unsafe { Some(libc::dup(2)) };
-                }
-            } else {  // 1> foo.log
-                let append = item.1 == ">>";
-                if let Ok(fd) = tools::create_raw_fd_from_file(&item.2, append) {
-                    _fd_candidate = Some(fd);
-                }
-            }
-
-            // for command like this: `alias > a.txt > b.txt > c.txt`,
-            // we need to return the last one, but close the previous two.
-            if let Some(fd) = fd_out {
-                unsafe { libc::close(fd); }
-            }
-
-            fd_out = _fd_candidate;
+    // redirections are applied from left to right; `1>&2` / `2>&1` duplicate
+    // the other descriptor as it stands at that point.
+    for item in redirects {
+        let is_out = item.0 == "1";
+        if !is_out && item.0 != "2" {
+            continue;
         }
 
-        if item.0 == "2" {
-            // 2>&1
-            let mut _fd_candidate = None;
+        let candidate = if is_out && item.2 == "&2" {
+            unsafe { Some(libc::dup(fd_err.unwrap_or(2))) }
+        } else if !is_out && item.2 == "&1" {
+            unsafe { Some(libc::dup(fd_out.unwrap_or(1))) }
+        } else {
+            let append = item.1 == ">>";
+            tools::create_raw_fd_from_file(&item.2, append).ok()
+        };
 
-            if item.2 == "&1" {
-                if let Some(fd) = fd_out {
-                    _fd_candidate = unsafe { Some(libc::dup(fd)) };
-                }
-            } else {  // 2>foo.log
-                let append = item.1 == ">>";
-                if let Ok(fd) = tools::create_raw_fd_from_file(&item.2, append) {
-                    _fd_candidate = Some(fd);
-                }
-            }
-
-            if let Some(fd) = fd_err {
-                unsafe { libc::close(fd); }
-            }
-
-            fd_err = _fd_candidate;
+        // for command like this: `alias > a.txt > b.txt > c.txt`,
+        // we need to return the last one, but close the previous two.
+        let slot = if is_out { &mut fd_out } else { &mut fd_err };
+        if let Some(fd) = *slot {
+            unsafe { libc::close(fd); }
         }
+        *slot = candidate;
     }
 
     (fd_out, fd_err)
